@@ -401,7 +401,7 @@ func run(p *kernel.Plan) (res *kernel.Result) {
 		return
 	}
 	tape := kernel.NewTape(p)
-	s := kernel.NewSched(kernel.ModePlain, tape, 300000)
+	s := kernel.NewSched(kernel.ModeBubble, tape, 300000)
 	o := wsx.Opts{}
 	if role == 0 {
 		o.ClientRB = int(p.C("rb"))
@@ -622,7 +622,10 @@ func run(p *kernel.Plan) (res *kernel.Result) {
 }
 
 var Check = &kernel.Check{
-	ID: "C14", Gen: gen, Run: run,
+	// inside a bubble: the default ping/close handlers and handleProtocolError
+	// call WriteControl with a deadline of now+1s; on the real clock a worker
+	// that is descheduled for a second under load would time the pong out
+	ID: "C14", Gen: gen, Run: run, Bubble: true,
 	Simpler: map[string][]int64{"rseg": {0}, "rb": {0}, "readapi": {0}, "cut": {-1}, "limit": {0}, "role": {0, 1}},
 	Probes: func() map[string]*kernel.Plan {
 		mk := func(cfg map[string]int64, ops ...kernel.Op) *kernel.Plan {
